@@ -127,7 +127,7 @@ DestroyE(s, e) == [s EXCEPT !.dead = @ \cup {e.o}]
 \* ---- inv(t, op, c, a, b, r)
 ArgLive(s, v) == Live(s, v)
 InvV(s, e) ==
-  CASE e.op \in {"load", "load_full", "store", "swap", "cas", "rcu", "into_inner_c", "drop_c", "cache_new", "acc_load"}
+  CASE e.op \in {"load", "load_full", "store", "swap", "cas", "rcu", "into_inner_c", "drop_c", "cache_new", "acc_load", "ser"}
          /\ e.c \notin DOMAIN s.cell -> <<"HARNESS", "operation on a container that does not exist">>
     [] e.op = "drop_p" /\ Get(s.preg, e.r) # e.a -> <<"C17", "a projection guard no longer shows the snapshot it was created with">>
     [] e.op \in {"drop_g", "into_inner", "drop_g_arg"} /\ Get(s.greg, e.r) # e.a -> <<"C10", "a guard no longer denotes the value it was created with">>
@@ -202,6 +202,8 @@ RetV(s, e) ==
          -> <<"C03+C12", "load returned a value that was only ever stored in another container">>
     [] e.op \in ReadingOps /\ e.v \notin p.seen
          -> <<"C03", "load returned a value that was not stored in this container at any instant of the call">>
+    [] e.op = "ser" /\ e.v \notin p.seen
+         -> <<"C20", "serializing the container produced something else than the serialization of a value it held during the call">>
     [] e.op = "acc_load" /\ e.v \notin p.seen
          -> <<"C17", "a projection shows a value that was not stored in the container at any instant of the load">>
     [] e.op = "acc_load" /\ ~Live(s, e.v) -> <<"C01+C17", "a projection guard was created on a destroyed value">>
@@ -256,7 +258,8 @@ DerefV(s, e) ==
     [] e.k = "p" /\ (~e.alive \/ e.o \in s.dead) -> <<"C01+C17", "a projection guard does not keep its snapshot alive">>
     [] e.k \in {"g", "h"} /\ held # e.o
          -> <<(IF e.k = "g" THEN "C10" ELSE "C01"), "a guard or handle dereferences to another value than the one it was created with">>
-    [] ~e.alive \/ e.o \in s.dead -> <<(IF e.k = "g" THEN "C01+C10" ELSE "C01"), "dereference of a destroyed value">>
+    [] ~e.alive \/ e.o \in s.dead -> <<(IF e.k = "g" THEN "C01+C10" ELSE IF e.k = "s" THEN "C01+C20" ELSE "C01"), "dereference of a destroyed value">>
+    [] e.k = "k" /\ e.tag # e.o -> <<"C17", "a projection of a Constant does not yield the constant's own value">>
     [] e.tag # e.o -> <<"C17", "projection of a value shows a field of another value (torn snapshot)">>
     [] OTHER -> OK
 
